@@ -10,7 +10,7 @@ t_hist = tmpl.pick(tmpl.history_case, LABELS)
 
 def templates(tier, seed):
     ts = []
-    quick_ops = ["validate_eager", "validate_lazy", "statistics", "to_yaml", "example", "transform_rename"]
+    quick_ops = ["validate_eager", "validate_lazy", "to_yaml", "example", "transform_rename"]  # (to_yaml runs the statistics code as well)
     # two more schema shapes, validated repeatedly: a groupby check restricted by `groups`, a MultiIndex schema on data whose levels share a name
     for variant in ("groupby",):  # (data whose MultiIndex levels share a name needs duplicate column labels in the frame model: not modelled)
         for fx in ((), ("validate_eager", "validate_eager"), ("validate_lazy", "validate_eager"), ("validate_eager", "statistics")):
